@@ -13,24 +13,24 @@ Definition block_text (c : text) (conts : list text) (b : list bline) : list tex
 Fixpoint subst (d : list elem) (bs : list (list bline)) : list elem :=
   match d with
   | [] => []
-  | EScrut n cfg cm (Some (c, conts, old)) tail :: r =>
+  | EScrut n cfg hs cm (Some (c, conts, old)) tail :: r =>
     match bs with
-    | b :: bs' => EScrut (S (max_bt 2 (block_text c conts b))) (option_map trim_start cfg) cm (Some (c, conts, b)) [] :: subst r bs'
-    | [] => EScrut n cfg cm (Some (c, conts, old)) tail :: subst r []
+    | b :: bs' => EScrut (S (max_bt 2 (block_text c conts b))) (option_map trim_start cfg) [] cm (Some (c, conts, b)) [] :: subst r bs'
+    | [] => EScrut n cfg hs cm (Some (c, conts, old)) tail :: subst r []
     end
-  | EScrut n cfg cm None tail :: r => EScrut 3 (option_map trim_start cfg) cm None [] :: subst r bs
+  | EScrut n cfg hs cm None tail :: r => EScrut 3 (option_map trim_start cfg) [] cm None [] :: subst r bs
   | e :: r => e :: subst r bs
   end.
 (* the generated bodies handed to update, one per block with a command *)
 Fixpoint bodies_for (d : list elem) (bs : list (list bline)) : list (list text) :=
   match d with
   | [] => []
-  | EScrut _ _ _ (Some (c, conts, _)) _ :: r =>
+  | EScrut _ _ _ _ (Some (c, conts, _)) _ :: r =>
     match bs with b :: bs' => block_text c conts b :: bodies_for r bs' | [] => [] end
   | _ :: r => bodies_for r bs
   end.
 Fixpoint commands (d : list elem) : nat :=
-  match d with [] => O | EScrut _ _ _ (Some _) _ :: r => S (commands r) | _ :: r => commands r end.
+  match d with [] => O | EScrut _ _ _ _ (Some _) _ :: r => S (commands r) | _ :: r => commands r end.
 
 Lemma has_command_code_lines : forall i c conts b, has_command (code_lines i (Some (c, conts, b))) = true.
 Proof. intros. unfold code_lines. cbn [app numbered has_command existsb snd]. reflexivity. Qed.
@@ -49,7 +49,7 @@ Theorem update_render : forall d idx bs, length bs = commands d ->
   update_toks (tokens_from idx d) (bodies_for d bs) = render_md (subst d bs).
 Proof.
   induction d as [|e d IH]; intros idx bs Hl; [reflexivity|].
-  cbn [tokens_from]. destruct e as [lines|l|k t| |n lang body tail|n cfg cm cmd tail]; cbn [elem_tokens app update_toks update_tok commands] in *.
+  cbn [tokens_from]. destruct e as [lines|l|k t| |n lang body tail|n cfg hs cm cmd tail]; cbn [elem_tokens app update_toks update_tok commands] in *.
   - cbn [bodies_for subst render_md flat_map render_elem]. fold (render_md (subst d bs)). rewrite (IH _ bs Hl). rewrite <- !app_assoc. reflexivity.
   - cbn [bodies_for subst render_md flat_map render_elem app]. fold (render_md (subst d bs)). rewrite (IH _ bs Hl). reflexivity.
   - cbn [bodies_for subst render_md flat_map render_elem app]. fold (render_md (subst d bs)). rewrite (IH _ bs Hl). reflexivity.
@@ -71,7 +71,7 @@ Lemma tests_subst_cmds : forall d bs line st line', length bs = commands d ->
   = map (fun t => (pt_title (mt_test t), pt_cmd (mt_test t))) (md_tests_from d line' st).
 Proof.
   induction d as [|e d IH]; intros bs line st line' Hl; [reflexivity|].
-  destruct e as [lines|l|k t| |n lang body tail|n cfg cm cmd tail]; cbn [subst md_tests_from commands] in *; try (apply IH; exact Hl).
+  destruct e as [lines|l|k t| |n lang body tail|n cfg hs cm cmd tail]; cbn [subst md_tests_from commands] in *; try (apply IH; exact Hl).
   destruct cmd as [[[c conts] old]|].
   - destruct bs as [|b bs']; [cbn in Hl; lia|]. cbn [md_tests_from map mt_test pt_title pt_cmd]. f_equal. apply IH. cbn in Hl. lia.
   - cbn [md_tests_from]. apply IH. exact Hl.
@@ -105,7 +105,7 @@ End Same.
 Lemma commands_subst : forall d bs, length bs = commands d -> commands (subst d bs) = commands d.
 Proof.
   induction d as [|e d IH]; intros bs Hl; [reflexivity|].
-  destruct e as [lines|l|k t| |n lang body tail|n cfg cm cmd tail]; cbn [subst commands] in *; try (apply IH; exact Hl).
+  destruct e as [lines|l|k t| |n lang body tail|n cfg hs cm cmd tail]; cbn [subst commands] in *; try (apply IH; exact Hl).
   destruct cmd as [[[c conts] old]|].
   - destruct bs as [|b bs']; [cbn in Hl; lia|]. cbn [commands]. f_equal. apply IH. cbn in Hl. lia.
   - cbn [commands]. apply IH. exact Hl.
@@ -117,7 +117,7 @@ Proof. intros [c|]; cbn [option_map]; [rewrite trim_start_idem|]; reflexivity. Q
 Lemma subst_idem : forall d bs, length bs = commands d -> subst (subst d bs) bs = subst d bs.
 Proof.
   induction d as [|e d IH]; intros bs Hl; [reflexivity|].
-  destruct e as [lines|l|k t| |n lang body tail|n cfg cm cmd tail]; cbn [subst commands] in *; try (f_equal; apply IH; exact Hl).
+  destruct e as [lines|l|k t| |n lang body tail|n cfg hs cm cmd tail]; cbn [subst commands] in *; try (f_equal; apply IH; exact Hl).
   destruct cmd as [[[c conts] old]|].
   - destruct bs as [|b bs']; [cbn in Hl; lia|]. cbn [subst]. rewrite option_map_trim_idem. f_equal. apply IH. cbn in Hl. lia.
   - cbn [subst]. rewrite option_map_trim_idem. f_equal. apply IH. exact Hl.
@@ -126,7 +126,7 @@ Qed.
 Lemma bodies_for_subst : forall d bs, length bs = commands d -> bodies_for (subst d bs) bs = bodies_for d bs.
 Proof.
   induction d as [|e d IH]; intros bs Hl; [reflexivity|].
-  destruct e as [lines|l|k t| |n lang body tail|n cfg cm cmd tail]; cbn [subst bodies_for commands] in *; try (apply IH; exact Hl).
+  destruct e as [lines|l|k t| |n lang body tail|n cfg hs cm cmd tail]; cbn [subst bodies_for commands] in *; try (apply IH; exact Hl).
   destruct cmd as [[[c conts] old]|].
   - destruct bs as [|b bs']; [cbn in Hl; lia|]. cbn [bodies_for]. f_equal. apply IH. cbn in Hl. lia.
   - cbn [bodies_for]. apply IH. exact Hl.
